@@ -154,6 +154,25 @@ example : (run St.init [.sendFail [1, 2, 1], .fetchBad [2], .deliverP2O]).tbl 1 
 /-- ... and an object that is lent meanwhile keeps exactly its count -/
 example : (run St.init [.send [1], .sendFail [1, 1], .fetchBad [1], .deliverP2O]).tbl 1 = some 0 := by decide
 
+/-- **A reception during the class-inspection round trip is counted.**  When the first proxy of an object needs a
+`HANDLE_INSPECT` round trip and its nested serve() receives the same object in a second message, the owner has
+registered two references; the peer's one proxy counts two (generated constant `oneProxyAcrossInspect`: one proxy
+object AND `____refcount__` 2, observed on the live `_unbox`), so its single release notice releases both. -/
+theorem reception_during_inspect_is_counted (s : Side) (id : Id) (h : s.px id = none) :
+    cnt ((unboxRefAcrossInspect Gen.Box.oneProxyAcrossInspect s id).2.2.px id) = 2 := by
+  have hc : Gen.Box.oneProxyAcrossInspect = true := by decide
+  rw [hc]
+  have hmiss : unboxRef s id = (.proxy id s.next,
+      { s with px := s.px.recv id, pid := fun j => if j = id then s.next else s.pid j, next := s.next + 1 }) := by
+    simp [unboxRef, h]
+  have h1 : (unboxRef s id).2.px id = some 1 := by rw [hmiss]; simp [Tbl.recv, h, hit]
+  have hhit : ∀ (t : Side) (c : Nat), t.px id = some c →
+      unboxRef t id = (.proxy id (t.pid id), { t with px := t.px.recv id }) := by
+    intro t c ht; simp [unboxRef, ht]
+  simp only [unboxRefAcrossInspect, if_true]
+  rw [hhit (unboxRef s id).2 1 h1]
+  simp [Tbl.recv, h1, hit, cnt]
+
 /-! ### non-vacuity: the race the statement names, replayed concretely -/
 
 /-- object 7 is sent, received, its proxy dropped (release notice in flight), and *at the same time* sent again
